@@ -27,4 +27,9 @@ PROPS = {
         "level": "other",
         "bounded": [],
     },
+    "C10": {
+        "modules": ["c10_containers", "c01_ledger"],
+        "level": "other",
+        "bounded": [],
+    },
 }
